@@ -551,4 +551,9 @@ def r5_settings_gate_only_the_store(a, tier):
     return rep
 
 
-RULES = [r1_key_derivation, r2_ownership, r3_observer_purity, r4_flag_confinement, r5_settings_gate_only_the_store]
+def r_replay(a, tier):
+    from .c01_contracts import replay_contracts
+    return replay_contracts(a, 'C04.R6')
+
+
+RULES = [r1_key_derivation, r2_ownership, r3_observer_purity, r4_flag_confinement, r5_settings_gate_only_the_store, r_replay]
